@@ -31,7 +31,7 @@ ASSUMPTIONS = ['island rows are compared with an independent 8-connected flood f
 MIN_REACH = {'source_finder:SourceFinder.find_sources_in_image': 1, 'source_finder:SourceFinder.priorized_fit_islands': 1,
              'source_finder:SourceFinder._refit_islands': 1, 'source_finder:SourceFinder.result_to_components': 1}
 MIN_COUNTERS = {'island_positions_checked': 10, 'priorized_inputs_off_image_or_on_blank': 3, 'rows_checked': 200, 'island_rows_checked': 10, 'reruns_compared': 10, 'priorized_runs': 3,
-                'fresh_process_reruns': 1, 'table_rows_checked': 20, 'db_rows_checked': 20, 'priorized_runs_catalogue_psf_larger_than_image_psf': 2, 'db_minus1_markers': 1, 'priorized_runs_from_a_table_without_uuid_column': 2, 'blind_runs_with_psf_map': 4, 'blind_runs_on_a_noise_map_with_a_step': 2, 'components_found_on_the_noise_step': 4, 'island_checks_with_flood_above_seed': 1, 'multi_component_islands_with_differing_psf': 3}
+                'fresh_process_reruns': 1, 'table_rows_checked': 20, 'db_rows_checked': 20, 'priorized_runs_catalogue_psf_larger_than_image_psf': 2, 'db_minus1_markers': 1, 'priorized_runs_from_a_table_without_uuid_column': 2, 'blind_runs_with_psf_map': 4, 'blind_runs_one_polarity_with_island_rows': 3, 'blind_runs_on_a_noise_map_with_a_step': 2, 'components_found_on_the_noise_step': 4, 'island_checks_with_flood_above_seed': 1, 'multi_component_islands_with_differing_psf': 3}
 BATCHES_PER_JOB = 4
 
 ISLAND_FIELDS = ['island', 'components', 'background', 'local_rms', 'ra_str', 'dec_str', 'ra', 'dec', 'peak_flux', 'int_flux',
@@ -63,6 +63,10 @@ def cases(seed, tier):
                     'cores': 1})
         # seed/flood clips other than the defaults, including flood > seed (documented: the flood clip is then lowered to the
         # seed clip) - the island rows must describe the pixels detected with the clips actually in force
+        if i % 4 == 1:
+            # one polarity only (nonegative is the command line's default), with island rows: the catalogue must stay consistent
+            out[-1]['polarity'] = [[False, True], [True, False]][(i // 4) % 2]
+            out[-1]['island'] = True
         if i % 4 == 2:
             out[-1]['clips'] = [[5.0, 7.0], [6.0, 3.0], [4.5, 4.5], [8.0, 10.0], [5.0, 4.0]][(i // 4) % 5]
             out[-1]['island'] = True
@@ -134,8 +138,9 @@ def _blind(fn, case, rms):
         srcs = sf.find_sources_in_image(fn, cores=1, docov=case['docov'], max_summits=case.get('max_summits'),
                                         doislandflux=False, nonegative=False, nopositive=False, **kw)
         return srcs
+    pol = case.get('polarity') or [False, False]          # (nopositive, nonegative)
     srcs = sf.find_sources_in_image(fn, rms=rms, bkg=0.0, cores=1, docov=case['docov'], max_summits=case.get('max_summits'),
-                                    doislandflux=case.get('island', False), nonegative=False, nopositive=False, **kw)
+                                    doislandflux=case.get('island', False), nonegative=bool(pol[1]), nopositive=bool(pol[0]), **kw)
     return srcs
 
 
@@ -384,6 +389,12 @@ def run(case):
                 comps, isles = _rows(srcs)
                 o.n_eval += 1
                 o.count('own_runs')
+                if case.get('polarity'):
+                    o.count('blind_runs_one_polarity_with_island_rows')
+                    want = -1.0 if case['polarity'][0] else 1.0
+                    for r_ in comps + isles:
+                        if r_.get('peak_flux') is not None and np.isfinite(r_['peak_flux']) and r_['peak_flux'] * want < 0:
+                            o.violate('row_of_the_excluded_polarity', dict(ctx, row=r_))
                 if case.get('rms_step'):
                     o.count('blind_runs_on_a_noise_map_with_a_step')
                     o.count('components_found_on_the_noise_step', len(comps))
